@@ -1,4 +1,5 @@
 import itertools
+import re
 
 from core import Property
 from props.c16 import enc
@@ -73,6 +74,54 @@ def random_split(rng, role, frames, ending, late_end=False):
     return case(role, acts + ['p'] * (len(frames) + 6))
 
 
+# ---- beyond the 11 letters: other unknown types (non-grease, registered extensions, 2/4/8-byte type varints), the other
+# HTTP/2-reserved types, payloads whose length needs a 2- or 4-byte varint, and long runs of short frames
+def big_headers(role, first, n):
+    # a literal field x-t: vvvv... (n bytes) after the regular block
+    val = b'v' * n
+    if n < 127:
+        lit = bytes([n])
+    else:
+        k, lit = n - 127, bytes([0x7f])
+        while k >= 128:
+            lit += bytes([0x80 | (k & 0x7f)])
+            k >>= 7
+        lit += bytes([k])
+    base = (REQ if role == 's' else RESP) if first else bytes.fromhex('0000')
+    return base + bytes.fromhex('23782d74') + lit + val
+
+
+GREASE8 = 0x21 + 0x1f * (2 ** 40 + 12345)
+
+
+def ext_letters(role, first_headers):
+    def fr(t, payload):
+        tl = 1 if t < 64 else 2 if t < 2 ** 14 else 4 if t < 2 ** 30 else 8
+        L = len(payload)
+        ll = 1 if L < 64 else 2 if L < 2 ** 14 else 4
+        return enc(t, tl) + enc(L, ll) + payload
+    pat = bytes((7, 1, 4, 0, 0, 3, 1, 2)) * 2048
+    return {
+        'U0e': fr(0x0e, b''), 'U0c': fr(0x0c, b'abc'), 'U40': fr(0x40, b'\x00'), 'U89': fr(0x89, b'xy'),
+        'Uf0700': fr(0xf0700, b'\x00\x01'), 'Ug8': fr(GREASE8, b'grease'), 'U63': fr(0x21, pat[:63]), 'U64': fr(0x21, pat[:64]),
+        'U16383': fr(0x2f, pat[:16383]), 'U16384': fr(0x0e, pat[:16384]), 'Ulen4': enc(0x21, 1) + enc(3, 4) + b'abc',
+        'Ulen8': enc(0x0e, 2) + enc(2, 8) + b'ab', 'D64': fr(0, pat[:64]), 'D16384': fr(0, pat[:16384]), 'Dlen4': enc(0, 1) + enc(3, 4) + b'xyz',
+        'H206': fr(6, b''), 'H208': fr(8, b'\x01\x02\x03\x04'), 'H209': fr(9, b'\x00'),
+        'Hbig': fr(1, big_headers(role, first_headers, 200)), 'Hbig16k': fr(1, big_headers(role, first_headers, 16384)),
+    }
+
+
+def ext_seq_bytes(role, seq):
+    out, seen_h = [], False
+    for n in seq:
+        base = letters(role, not seen_h)
+        l = base[n] if n in base else ext_letters(role, not seen_h)[n]
+        out.append(l)
+        if n in ('H', 'Hbig', 'Hbig16k'):
+            seen_h = True
+    return out
+
+
 def parse_obs(out):
     ev, final, pend = [], None, False
     extra = {}
@@ -136,14 +185,20 @@ class P(Property):
             'open} x {one chunk then polls, one chunk per frame with polls in between, seeded random byte-level chunking with '
             'interleaved polls, the ending arriving only after everything was read} x {server, client}, driving the real '
             'server::Connection (accept, resolve_request, recv_data, recv_trailers) and client::Connection (send_request, '
-            'recv_response, recv_data, recv_trailers) over SimQuic, one API poll per `p`. non-trivial = distinct cases in which '
+            'recv_response, recv_data, recv_trailers) over SimQuic, one API poll per `p`; for sequences of up to 3 frames also with '
+            'the application calling split() after the head or after the first piece of body and reading the receive half; '
+            'plus 20 further letters (unknown types 0x0e/0x0c/0x40/0x89/0xf0700/8-byte grease, HTTP/2 types 6/8/9, unknown, DATA '
+            'and HEADERS payloads of 63/64/16383/16384 bytes, non-minimal 4/8-byte length varints) at 7 positions, and runs of '
+            '17..100 (thorough 300) unknown / zero-length DATA / DATA / mixed frames before, inside and after the message. non-trivial = distinct cases in which '
             'the implementation delivered a header section or raised an error')
 
     def canon(self, case, out):
         if out.startswith('panic'):
             return 'panic'
-        out = out.replace('head:' + REQ.hex(), 'head:REQ').replace('head:' + RESP.hex(), 'head:RESP')
-        out = out.replace('trailers:' + TRL.hex(), 'trailers:T')
+        # header blocks are opaque to the model (hex); the implementation shows what it decoded from them
+        out = re.sub(r'head:%s[0-9a-f]*' % REQ.hex(), 'head:REQ', out)
+        out = re.sub(r'head:%s[0-9a-f]*' % RESP.hex(), 'head:RESP', out)
+        out = re.sub(r'trailers:000023782d74[0-9a-f]*', 'trailers:T', out)
         return out
 
     def cases(self, tier, rng):
@@ -164,6 +219,42 @@ class P(Property):
                     e = rng.choice(['F', 'F', 'R268', ''])
                     if k >= 1:
                         out.append(random_split(rng, role, fr, e, late_end=rng.random() < 0.4))
+                    # the application split()s the stream after the head / after the first piece of body
+                    if 1 <= k <= 3 and seq[0] == 'H':
+                        for flag in ('+split', '+splitm'):
+                            out.append(per_frame(role + flag, fr, 'F'))
+                            out.append(batch(role + flag, fr, rng.choice(['F', '', 'R268'])))
+                            out.append(random_split(rng, role + flag, fr, 'F', late_end=rng.random() < 0.5))
+        xs = sorted(ext_letters('s', True))
+        for role in ('s', 'c'):
+            for x in xs:
+                big = '16' in x
+                for seq in ((x,), ('H', x), ('H', x, 'Dn'), ('H', 'Dn', x), ('H', 'Dn', 'H', x), (x, 'H', 'Dn'), ('H', x, x, 'Dn', 'H')):
+                    fr = ext_seq_bytes(role, seq)
+                    for e in ('F', ''):
+                        out.append(batch(role, fr, e))
+                        if not big or e == 'F':
+                            out.append(per_frame(role, fr, e))
+                    out.append(random_split(rng, role, fr, 'F', late_end=rng.random() < 0.3) if not big
+                               else batch(role + '+split', fr, 'F'))
+                    if not big:
+                        out.append(per_frame(role + rng.choice(['+split', '+splitm']), fr, 'F'))
+            # long runs of short frames
+            for k in ((17, 20, 33, 100) if tier == 'quick' else (17, 20, 33, 64, 100, 300)):
+                for seq in (('H',) + ('U0',) * k + ('Dn',), ('H',) + ('D0',) * k + ('Dn',), ('H',) + ('Dn',) * k,
+                            ('U0',) * k + ('H', 'Dn'), ('H', 'Dn', 'H') + ('Un',) * k, ('H',) + ('Ug8', 'D0', 'U0e', 'Dn') * (k // 4),
+                            ('H',) + ('Un',) * k + ('H',)):
+                    fr = ext_seq_bytes(role, seq)
+                    for e in ('F', ''):
+                        out.append(batch(role, fr, e, extra=k + 4))
+                    out.append(per_frame(role, fr, 'F'))
+                    out.append(random_split(rng, role, fr, 'F'))
+                    out.append(batch(role + '+split', fr, 'F', extra=k + 4))
+            # a WebTransport stream header is outside the property (the outcome is `outofscope`): model = implementation only
+            for pre in ((), ('H',), ('H', 'Dn')):
+                fr = seq_bytes(role, pre) + [bytes.fromhex('404100'), b'raw']
+                out.append(batch(role, fr, 'F'))
+                out.append(per_frame(role, fr, ''))
         return out
 
     def spec_ok(self, case, out, spec):
@@ -186,6 +277,8 @@ class P(Property):
         complete = last_call >= 0 and not any(a[0] in 'cFRX' for a in acts[last_call + 1:])
         if ev != sev[:len(ev)]:
             return False
+        if sfinal == 'outofscope':
+            return True           # WebTransport stream header: no claim beyond the events shown before it
         if extra.get('stop', '-') != '-':
             return False
         if final is None:
